@@ -37,6 +37,11 @@ BUDGET = {
 }
 
 
+DISCOVERY_BOUND = 10.0 + 0.5   # GeckoConfig.DISCOVERY_TIMEOUT_IN_SECONDS of the active configuration + one polling round
+RAISABLE = ["LOCATING_DISCOVERED_SPA", "CONNECTION_GOT_FIRMWARE_VERSION", "CONNECTION_GOT_CHANNEL", "CONNECTION_GOT_CONFIG_FILES",
+            "CONNECTION_INITIAL_DATA_BLOCK_REQUEST", "CONNECTION_SPA_COMPLETE"]
+
+
 def strategy(tier):
     t = st.one_of(st.floats(0.0, 0.45), st.floats(0.45, 3.6), st.floats(0.45, 3.6), st.floats(3.6, 20.0), st.just(140.0)).map(lambda x: round(x, 3))
     cyc = st.tuples(st.sampled_from(["none", "none", "none", "blackout", "rferr"]), st.sampled_from(["reset", "reset", "setinfo"]), t,
@@ -44,8 +49,13 @@ def strategy(tier):
     jitter = st.one_of(st.just([]), st.lists(st.sampled_from([0.0, 0.0, 0.01, 0.03, 0.05]), min_size=1, max_size=7))
     smap = st.dictionaries(st.sampled_from(["RUNNING_SPA_DISCONNECTED", "CLIENT_FACADE_TEARDOWN", "CONNECTION_STARTED", "LOCATING_FINISHED"]),
                            st.sampled_from([0.02, 0.06]), max_size=2)
-    return st.builds(lambda cs, ex, es, j, sm: dict({"cycles": cs, "exit_at": ex, "jitter": j, "suspend_map": sm}, **({"exit_step": es} if es else {})),
-                     st.lists(cyc, min_size=0, max_size=5), t, st.one_of(st.just(0), st.just(0), st.integers(1, 400)), jitter, smap)
+    # a connection attempt that ends with an exception of its own (here: the client's handler fails while it is told about a
+    # handshake step) is an abandoned connection as well
+    rmap = st.one_of(st.just({}), st.just({}), st.just({}), st.dictionaries(
+        st.sampled_from(RAISABLE), st.integers(1, 3), min_size=1, max_size=2))
+    return st.builds(lambda cs, ex, es, j, sm, rm: dict({"cycles": cs, "exit_at": ex, "jitter": j, "suspend_map": sm}, **({"exit_step": es} if es else {}),
+                                                        **({"raise_map": rm} if rm else {})),
+                     st.lists(cyc, min_size=0, max_size=5), t, st.one_of(st.just(0), st.just(0), st.integers(1, 400)), jitter, smap, rmap)
 
 
 _STEPS = {}
@@ -117,6 +127,8 @@ def run_case(case) -> Result:
     async def main(W):
         man = Man(W, spa_identifier=manager.SPA_ID_STR, spa_address=peer.addr[0], spa_name="Spa")
         man.suspend_map = dict(case.get("suspend_map", {}))
+        man.raise_map = dict(case.get("raise_map", {}))
+        raise_budget = sum(man.raise_map.values())
         sc.man = man
         exited = False
         await man.__aenter__()
@@ -185,14 +197,20 @@ def run_case(case) -> Result:
                         g["dead_at"] = t_inj
                 # -- prompt termination of the abandoned connection's tasks
                 await W.sleep(2 * (vworld.POLL + J) + 0.01)
+                # A discovery that is in flight belongs to the manager's sequence pump, not to the connection: a reset does not
+                # stop it, the pump goes on with its result.  Its endpoint and tasks are therefore only required to end with the
+                # discovery itself (DISCOVERY_TIMEOUT after it opened the endpoint), everything else promptly.
+                loc_eps = [tr for tr in snap["eps"] if not tr.closed and tr.kwargs.get("allow_broadcast")]
+                if loc_eps:
+                    await pump_until(max(tr.opened_at for tr in loc_eps) + DISCOVERY_BOUND + J)
                 still = [t.get_name() for t in snap["tasks"] if not t.done() and id(t) not in info["stale"]]
                 if still:
-                    res.fail(f"C10|task-survives|{kind}|{sorted(set(still))[0]}", f"cycle {ci}: {still} still running {2 * (vworld.POLL + J):.2f}s after {kind} returned")
+                    res.fail(f"C10|task-survives|{kind}|{sorted(set(still))[0]}", f"cycle {ci}: {still} still running {W.clock.t - t_inj:.2f}s after {kind} returned")
                 # -- endpoints of the abandoned connection closed
                 for tr in snap["eps"]:
                     if not tr.closed and id(tr) not in info["stale"]:
                         res.fail(f"C10|endpoint-open|{kind}|{'broadcast' if tr.kwargs.get('allow_broadcast') else 'spa'}",
-                                 f"cycle {ci}: endpoint {tr.local_addr} opened at {tr.opened_at - t_enter:.2f}s is still open after {kind} at {t_inj - t_enter:.2f}s")
+                                 f"cycle {ci}: endpoint {tr.local_addr} opened at {tr.opened_at - t_enter:.2f}s is still open {W.clock.t - t_inj:.2f}s after {kind} at {t_inj - t_enter:.2f}s")
                 # -- a connection attempt that was in flight when the injection started is abandoned too:
                 # whatever it creates while / after the injection runs (endpoint, tasks) must not outlive it
                 win_eps = [tr for tr in W.transports if tr not in snap["eps"] and tr.opened_at <= t_inj + 1e-9]
@@ -246,6 +264,7 @@ def run_case(case) -> Result:
             if exit_task.exception() is not None:
                 raise exit_task.exception()
             t_exit = W.clock.t
+            info["raised"] = raise_budget - sum(man.raise_map.values())
             for g in info["gens"]:
                 if g["dead_at"] is None:
                     g["dead_at"] = t_exit
@@ -289,7 +308,9 @@ def run_case(case) -> Result:
                     break
 
     W.run(main)
-    res.nontrivial = info["busy_inject"]
+    res.nontrivial = info["busy_inject"] or info.get("raised", 0) > 0
+    if info.get("raised"):
+        res.label("connection-attempt-raised")
     res.label(f"cycles-{min(len(case['cycles']), 3)}")
     if info["busy_inject"]:
         res.label("inject-in-discovery-or-handshake")
